@@ -5,6 +5,25 @@
 use crate::report::Acc;
 use std::sync::atomic::{AtomicU64, Ordering};
 
+/// Rank in progress (+1; 0 = none) per worker, readable from the abort handler.
+pub static CUR_RANK: [AtomicU64; 256] = [const { AtomicU64::new(0) }; 256];
+thread_local! {
+    /// Index of this worker in CUR_RANK (usize::MAX: not a worker thread).
+    pub static WORKER_IDX: std::cell::Cell<usize> = const { std::cell::Cell::new(usize::MAX) };
+}
+
+/// The rank the calling thread is working on, if it is a worker (used by the SIGABRT handler).
+pub fn current_rank_of_this_thread() -> Option<u64> {
+    let w = WORKER_IDX.with(|c| c.get());
+    if w >= CUR_RANK.len() {
+        return None;
+    }
+    match CUR_RANK[w].load(Ordering::Relaxed) {
+        0 => None,
+        r => Some(r - 1),
+    }
+}
+
 pub fn threads() -> usize {
     std::env::var("VERIF_THREADS")
         .ok()
@@ -65,6 +84,7 @@ where
                     .spawn_scoped(s, move || {
                         let mut acc = Acc::new();
                         acc.sample_stride = stride;
+                        WORKER_IDX.with(|c| c.set(w));
                         loop {
                             let start = next.fetch_add(chunk, Ordering::Relaxed);
                             if start >= hi {
@@ -74,9 +94,15 @@ where
                             for r in start..end {
                                 slot.1.store(t0.elapsed().as_millis() as u64, Ordering::Relaxed);
                                 slot.0.store(r + 1, Ordering::Release);
+                                if w < CUR_RANK.len() {
+                                    CUR_RANK[w].store(r + 1, Ordering::Relaxed);
+                                }
                                 f(r, &mut acc);
                             }
                             slot.0.store(0, Ordering::Release);
+                            if w < CUR_RANK.len() {
+                                CUR_RANK[w].store(0, Ordering::Relaxed);
+                            }
                         }
                         acc
                     })
